@@ -191,13 +191,24 @@ func (w *c20World) submit(s *dsim.Sim, c *sig.RawCall, kind string) {
 	case "unsigned":
 		sm.SignedMsg.Signature = nil
 		authentic = false
+	case "embedded-pubkey":
+		// sender field = the stream owner, signature made by a third key whose public key is
+		// embedded in the signature object
+		for _, n := range w.names {
+			if n != owner.Name {
+				signer = w.rw.Parties[n]
+			}
+		}
+		sigObj, _ := peer.NewSignature("bifrost/signaling/rpc session msg 2024-06-05T02:45:07.208906Z", signer.Priv, hash.HashType_HashType_BLAKE3, []byte(payload), true)
+		sm = &signaling.SessionMsg{Seqno: uint64(w.n), SignedMsg: &peer.SignedMsg{FromPeerId: owner.IDs, Data: []byte(payload), Signature: sigObj}}
+		authentic = false
 	}
 	if kind != "honest" {
 		k := kind
 		if len(k) > 8 && k[:8] == "tampered" {
 			k = "tampered"
 		}
-		if k == "claims-owner" {
+		if k == "claims-owner" || k == "embedded-pubkey" {
 			k = "foreign-signed"
 		}
 		s.Count("fault:" + k)
@@ -209,7 +220,7 @@ func (w *c20World) submit(s *dsim.Sim, c *sig.RawCall, kind string) {
 	s.Logf("submit %s kind=%s epoch=%d %q", c.St.Name, kind, epoch, payload)
 }
 
-var c20Kinds = []string{"honest", "honest", "honest", "honest", "honest", "honest", "honest", "honest", "honest", "honest", "honest", "honest", "honest", "honest", "foreign-signed", "claims-owner", "tampered-body", "tampered-sig", "tampered-sender", "wrong-context", "unsigned", "stale-epoch", "future-epoch"}
+var c20Kinds = []string{"honest", "honest", "honest", "honest", "honest", "honest", "honest", "honest", "honest", "honest", "honest", "honest", "honest", "honest", "foreign-signed", "claims-owner", "embedded-pubkey", "tampered-body", "tampered-sig", "tampered-sender", "wrong-context", "unsigned", "stale-epoch", "future-epoch"}
 
 func (w *c20World) Actions(s *dsim.Sim, add func(dsim.Action)) {
 	w.rw.Net.DeliveryActions(add)
